@@ -1,2 +1,3 @@
-SPECIFICATION Spec
+INIT Init
+NEXT Next
 CHECK_DEADLOCK FALSE
